@@ -14,6 +14,7 @@
     Only statements, [exact], [Print Assumptions] and non-vacuity Examples live here. *)
 From Coq Require Import List NArith Bool Arith.
 From Atlas Require Import Base.Bytes Diff.Schema Sqlite.RowsModel Sqlite.RowsProofs Sqlite.RowsWitness.
+From Atlas Require Diff.DiffModel Sqlite.PlanModel Sqlite.RowsBridge.
 Import ListNotations.
 
 (** FULL STATEMENT (false of the faithful model, see 1a): for every database [d], change set
@@ -149,7 +150,23 @@ Theorem C05_copy_pairing :
                   kept cs c = Some x /\ nth_error fromC i = Some x.
 Proof. exact C05_copy_pairing_lemma. Qed.
 
+(** 6. Bridge to the shared planner model (Sqlite/PlanModel.v, C01): on the change projection the
+    community differ emits, [PlanModel.copy_cols] (whose statements C01 ties to the SQL text the Go
+    planner prints) and [RowsModel.copyRows_loop] (the subject of 1b and 5) produce the same
+    INSERT column list and, position by position, the same kind of source expression for the same
+    column; the IFNULL replacement value is the evaluation [ev] of the DEFAULT text. *)
+Theorem C05_shared_planner_same_pairing :
+  forall (ev : str -> str -> value) (all : list column) (cs : list DiffModel.change)
+         (cols : list column) (prs : list (str * PlanModel.sexpr)),
+  PlanModel.copy_cols cols cs = Some prs ->
+  exists fromC',
+    copyRows_loop (map (RowsBridge.proj_col ev) cols) (map (RowsBridge.proj_change ev all) cs) [] []
+      = POk (map fst prs, fromC') /\
+    Forall2 (RowsBridge.expr_matches ev) (map snd prs) fromC'.
+Proof. exact RowsBridge.copy_cols_bridge_nil. Qed.
+
 Print Assumptions C05_rows_preserved_refuted.
+Print Assumptions C05_shared_planner_same_pairing.
 Print Assumptions C05_values_identical_refuted.
 Print Assumptions C05_rows_preserved_except.
 Print Assumptions C05_others_untouched.
@@ -203,4 +220,14 @@ Example C05_copy_pairing_nonvacuous :
                             col sId tyInt true; col sA tyInt false; col_d sV tyText true vd] [] [])
            [AddColumn (col sA tyInt false); ModifyColumn sV ChangeNull]
   = POk [SCopyRows sZ [sId; sV] [ECol sId; EIfNull sV vd] sT].
+Proof. vm_compute. reflexivity. Qed.
+
+(** 6: an instance of the shared planner with an IFNULL and an added column *)
+Example C05_shared_planner_nonvacuous :
+  PlanModel.copy_cols
+    [mkColumn sId 2 tyInt false None None None;
+     mkColumn sV 3 tyText false (Some (DLit [100%N])) None None;
+     mkColumn sA 2 tyInt true None None None]
+    [DiffModel.ModifyColumn sV 16; DiffModel.AddColumn sA]
+  = Some [(sId, PlanModel.XCol sId); (sV, PlanModel.XIfNull sV [39; 100; 39]%N)].
 Proof. vm_compute. reflexivity. Qed.
